@@ -461,6 +461,13 @@ def analyse(case, io):
                         add("C02:root-outcome", "fault-escaped-past-the-awaiting-tasks",
                             "value() of computation #%d raised scripted fault %s but the root task never completed" % (len(roots) - 1, eidv))
             o = outs[len(roots) - 1] if roots else None
+            if isinstance(o, dict) and "Some" in o and isinstance((o["Some"][0].get("Err") or [None])[0], dict):
+                cls = o["Some"][0]["Err"][0].get("Unexpected", [{}])[0].get("s", "?")
+                if not (cls == "RecursionError" or case.get("params", {}).get("reentrant")):
+                    add("C03:termination", "computation-aborted:%s" % cls,
+                        "computation #%d did not end with its own outcome: value() raised %s, which no program step raises" % (len(roots) - 1, cls))
+                    add("C01:received-value", "asynq-internal-error-as-outcome:%s" % cls,
+                        "computation #%d ended with %s, which no program step raises" % (len(roots) - 1, cls))
             if isinstance(o, dict) and "Some" in o and o["Some"][0].get("Err") in ([-5], [-3]):
                 cls = "BatchingError" if o["Some"][0]["Err"] == [-5] else "FutureIsAlreadyComputed"
                 add("C01:received-value", "asynq-internal-error-as-outcome:%s" % cls,
